@@ -59,6 +59,18 @@ class Poly:
                 d[k] = d.get(k, 0) + v1 * v2
         return Poly(d)
 
+    def subst(self, mp):
+        """replace atoms by polynomials: mp {atom: Poly}"""
+        if not (self.atoms() & set(mp)):
+            return self
+        out = Poly()
+        for m, c in self.t.items():
+            term = Poly.const(c)
+            for a in m:
+                term = term * (mp[a] if a in mp else Poly.atom(a))
+            out = out + term
+        return out
+
     def is_const(self):
         return all(k == () for k in self.t)
 
@@ -348,6 +360,8 @@ class Num:
         self.paths = 0
         self.types = fn.unit.types
         self._loops = None
+        self.loop_drop = {}
+        self.loop_drop_new = {}
         self.elem_of = {}
         for b in fn.blocks.values():
             for i, e in enumerate(b.elems):
@@ -424,9 +438,15 @@ class Num:
         if "w" not in t and not t.get("ptr"):
             if t.get("arr") is not None:
                 # array object: its value in pointer context is its address
-                a = self.fresh(st, "&" + k.split(":")[-1], None, (1, MAXU[64]))
+                a = self.fresh(st, "&" + k.split(":")[-1].replace("(", "").replace(")", ""), None, (1, MAXU[64]))
                 st.env[k] = Poly.atom(a)
-                st.extent[a] = Poly.const(t["arr"] * t.get("esz", 1))
+                if t["arr"] >= 0:
+                    st.extent[a] = Poly.const(t["arr"] * t.get("esz", 1))
+                elif self.hooks is not None and hasattr(self.hooks, "flex_extent"):
+                    nn0 = self.fn.d(n)
+                    ext = self.hooks.flex_extent(self, st, k, nn0.get("rec"), nn0.get("f"), t) if nn0["k"] == "member" else None
+                    if ext is not None:
+                        st.extent[a] = ext
                 return st.env[k]
             return None
         hint = k.split(":")[-1] if k[:2] in ("v:", "g:") else k
@@ -834,6 +854,11 @@ class Num:
                         q = self.fresh(st, "hi", None, (0, None))
                         st.add_eq(Poly.atom(q) * (m + 1) + Poly.atom(r) - x)
                     return Poly.atom(r)
+            if op == "&" and entails(st, -a) and entails(st, -b):
+                r = self.fresh(st, "and", t, (0, self.trange(t)[1] if "w" in t else None))
+                st.add(Poly.atom(r) - a)
+                st.add(Poly.atom(r) - b)
+                return Poly.atom(r)
             if op == "/" and entails(st, -a) and entails(st, Poly.const(1) - b):
                 q = self.fresh(st, "quot", t)
                 st.add(Poly.atom(q) - a)  # q <= a for b >= 1
@@ -1325,6 +1350,7 @@ class Num:
                 direction["v:" + x[1]] = 0
         # candidates: linear relations between modified keys with known pre-values: sum c_k (x_k - pre_k) == 0 for small c
         cands = self.relation_candidates(header, eff, pre, direction, st)
+        entry_facts = list(st.facts)
         # havoc
         for x in eff:
             if x[0] == "var":
@@ -1395,8 +1421,52 @@ class Num:
             for k, c in coeffs.items():
                 rel = rel + (newv[k] - pre[k]) * c
             st.add_eq(rel)
-        st.notes.setdefault("loops", []).append((header, sorted(pre), len(cands)))
+        # Houdini: facts about the modified keys that hold at loop entry are kept as candidate invariants on the loop
+        # atoms; candidates not re-established at a back edge are dropped and the analysis is re-run (states_at)
+        single = {}
+        for k, p0 in pre.items():
+            if len(p0.t) == 1:
+                (m, c), = p0.t.items()
+                if len(m) == 1 and c == 1:
+                    single[m[0]] = k
+        multi_atoms = set()
+        for k, p0 in pre.items():
+            if not (len(p0.t) == 1 and list(p0.t.values()) == [1] and len(list(p0.t)[0]) == 1):
+                multi_atoms |= p0.atoms()
+        hc = []
+        dropped = self.loop_drop.get(header, set())
+        if single:
+            mp = {a: newv[k] for a, k in single.items()}
+            for F in entry_facts:
+                fa = F.atoms()
+                if not (fa & set(single)) or len(F.t) > 6:
+                    continue
+                cid = repr(F.subst({a: Poly.atom("KEY<" + k + ">") for a, k in single.items()}))
+                if cid in dropped:
+                    continue
+                hc.append((cid, F, dict(single)))
+                st.add(F.subst(mp))
+        lc = dict(st.notes.get("loop_cands", {}))
+        lc[header] = hc
+        st.notes["loop_cands"] = lc
+        st.notes.setdefault("loops", []).append((header, sorted(pre), len(cands), len(hc)))
         return st
+
+    def check_back_edge(self, header, st):
+        """a trace arrived back at the loop header: every kept candidate must hold for the values at the end of the iteration"""
+        for cid, F, single in st.notes.get("loop_cands", {}).get(header, []):
+            mp = {}
+            ok = True
+            for a, k in single.items():
+                v = st.env.get(k)
+                if v is None:
+                    ok = False
+                    break
+                mp[a] = v
+            if ok:
+                ok = entails(st, F.subst(mp))
+            if not ok:
+                self.loop_drop_new.setdefault(header, set()).add(cid)
 
     def declared_outside(self, header, name):
         """is local `name` declared outside the loop (or a parameter)?"""
@@ -1541,7 +1611,18 @@ class Num:
                 if p not in can:
                     can.add(p)
                     work.append(p)
-        st0 = entry_state or State()
+        for _round in range(10):
+            self.loop_drop_new = {}
+            out = self._explore(target_ids, targets, can, want_exit, after_ids, entry_state, preds, want_blocks)
+            if not self.loop_drop_new:
+                return out
+            for h, ids in self.loop_drop_new.items():
+                self.loop_drop.setdefault(h, set()).update(ids)
+        return out
+
+    def _explore(self, target_ids, targets, can, want_exit, after_ids, entry_state, preds, want_blocks):
+        fn = self.fn
+        st0 = entry_state.copy() if entry_state is not None else State()
         if entry_state is None and self.hooks is not None and hasattr(self.hooks, "entry"):
             self.hooks.entry(self, st0)
         out = {tid: [] for tid in target_ids}
@@ -1569,6 +1650,7 @@ class Num:
                 st = self.enter_loop(b, st)
                 inloops = inloops | {b}
             elif b in loops and b in inloops:
+                self.check_back_edge(b, st)
                 continue  # back edge: covered by the havocked header state
             B = fn.blocks[b]
             states = [st]
